@@ -131,9 +131,23 @@ class Symbols(Backend):
             fn = getattr(d, SYM + pre + n)
             fn.restype = None
             self.f[n] = fn
+        # the same routines entered through the flag-setting trampoline
+        self.f_flags = {}
+        for n, fn in self.f.items():
+            addr = ctypes.cast(fn, ctypes.c_void_p).value
+
+            def via(*args, _addr=addr, _rt=fn.restype):
+                t = d.vf_tramp_flags
+                t.restype = _rt
+                full = list(args) + [None] * (5 - len(args))
+                return t(*(full[:5] + [ctypes.c_void_p(_addr)]))
+            self.f_flags[n] = via
 
     def run(self, prim, a, b, alias):
         lib, f = self.lib, self.f
+        if (a ^ (b >> 1)) & 1:
+            # enter the routines with CF = OF = SF = 1, as after an earlier routine that borrowed: flags are not part of the ABI
+            f = self.f_flags
         lib.A.write(conv.bi(a, 384))
         lib.B.write(conv.bi(b, 384))
         lib.C.write(self.qb)
@@ -515,6 +529,7 @@ class ArmBackend:
         """Runs one assembly routine with standard buffers; returns (rv, result bytes reader)."""
         inv = F.FQ_INV & ((1 << self.word) - 1)
         m = self.sym[self.pfx + name] if self.arch == "a64" else self.machine
+        m.init_flags = bool((a ^ (b >> 1)) & 1)      # enter with C = V = 1 on half of the cases
         self._load(m, a, b, t)
         regs = {
             "bigint_384_add": [dst, self.A, self.B], "bigint_384_subtract": [dst, self.A, self.B], "bigint_384_multiply2": [dst, self.A],
